@@ -28,6 +28,22 @@ static std::vector<Prefix> c10_prefixes(bool thorough = false) {
             bytes pn = ref::push_num(n); s.insert(s.end(), pn.begin(), pn.end());
             P.push_back({"nop*" + std::to_string(k) + " 0 0 <" + std::to_string(n) + " keys> " + std::to_string(n) + " (total with CHECKMULTISIG " + std::to_string(total) + ")", c, s});
         }
+        // multisig first, counted ops afterwards: 0 0 <n keys> n CHECKMULTISIG DROP NOP*k   (the key count must stay in the running total)
+        for (int n : {0, 1, 3, 20}) for (int total : {199, 200, 201}) {
+            int k = total - 2 - n; if (k < 0) continue;
+            bytes s{0x00, 0x00};
+            for (int i = 0; i < n; i++) { s.push_back(0x01); s.push_back(0x02); }
+            bytes pn = ref::push_num(n); s.insert(s.end(), pn.begin(), pn.end());
+            s.push_back(0xae); s.push_back(0x75); rep(s, "61", k);
+            P.push_back({"0 0 <" + std::to_string(n) + " keys> " + std::to_string(n) + " CHECKMULTISIG DROP nop*" + std::to_string(k) + " (total " + std::to_string(total) + ")", c, s});
+        }
+        // two multisigs in one script
+        for (int total : {200, 201}) {
+            int k = total - 2 * (1 + 10) - 1; bytes s;
+            for (int m = 0; m < 2; m++) { s.push_back(0x00); s.push_back(0x00); for (int i = 0; i < 10; i++) { s.push_back(0x01); s.push_back(0x02); } s.push_back(0x5a); s.push_back(0xae); if (m == 0) s.push_back(0x75); }
+            rep(s, "61", k);
+            P.push_back({"two 0-of-10 multisigs, DROP, nop*" + std::to_string(k) + " (total " + std::to_string(total) + ")", c, s});
+        }
         // stack size by DUP chains
         for (int n : {998, 999, 1000}) { bytes s = ref::unhex("51"); rep(s, "76", n - 1); P.push_back({"1 DUP*" + std::to_string(n - 1) + " (" + std::to_string(n) + " items)", c, s}); }
         // stack + altstack combined
